@@ -198,6 +198,15 @@ Definition excs_shape_ok : bool :=
   | _, _ => false
   end.
 
+(* ---- C14: Basic.consume sends its request, adds the tag and binds the callback in one section
+        under the channel lock; the dispatcher looks the callback up under the same lock ---- *)
+Definition consume_shape_ok : bool :=
+  has_sublist [TWith LChan; TCall KConsumeRpc; TCall KConsumeAddTag; TCall KBindCallback; TEndWith]
+              src_Basic_consume tok_eqb &&
+  once KConsumeRpc src_Basic_consume && once KBindCallback src_Basic_consume &&
+  has_sublist [TWith LChan; TCall KLookupCallback; TEndWith] src_Channel_process_data_events tok_eqb &&
+  Nat.eqb (count_call KLookupCallback src_Channel_process_data_events) 1.
+
 (* ---- C10: number chosen, registered and opened under Connection.lock ---- *)
 Definition alloc_shape_ok : bool :=
   all_under LConn KNextId src_Connection_channel &&
